@@ -24,6 +24,9 @@ Definition hms_ns (hs ms ss : str) : Z := (dval hs * hour_ns + dval ms * minute_
 (* the frames / ticks terms of TTMLInDuration.duration *)
 Definition frames_term (f fr : Z) : Z := round_Z (fmul (fdiv (of_Z f) (of_Z fr)) (of_Z second_ns)).
 Definition ticks_term (t tr : Z) : Z := round_Z (fdiv (fmul (of_Z t) (of_Z second_ns)) (of_Z tr)).
+(* the same terms for an offset expressed in frames / ticks, whose count may carry a fraction: v is the parsed value *)
+Definition frames_val_term (v : f64) (fr : Z) : Z := round_Z (fmul (fdiv v (of_Z fr)) (of_Z second_ns)).
+Definition ticks_val_term (v : f64) (tr : Z) : Z := round_Z (fdiv (fmul v (of_Z second_ns)) (of_Z tr)).
 Definition offset_term (ip fp : str) (m : metric) : Z := round_Z (fmul (parse_dec ip fp) (of_Z (timebase m))).
 
 (* "r is the instant num/den ns": exactly when that is a whole number of ns, else a neighbouring ns *)
